@@ -102,9 +102,10 @@ Abs(h, v) ==
 \* x is the argument element (already a value of the layer), i / n are integer arguments.
 Reject(e) == [e |-> e, out |-> <<>>, drop |-> <<>>, dup |-> <<>>, ok |-> FALSE]
 Res(e, out, drop, dup) == [e |-> e, out |-> out, drop |-> drop, dup |-> dup, ok |-> TRUE]
+SelectSeqIdx(e, P(_)) == LET idx == SelectSeq([j \in 1..Len(e) |-> j], P) IN [k \in 1..Len(idx) |-> e[idx[k]]]    \* elements at the 1-based positions satisfying P
 RemoveAtSeq(e, i) == SubSeq(e, 1, i - 1) \o SubSeq(e, i + 1, Len(e))      \* i 1-based
 InsertAtSeq(e, i, x) == SubSeq(e, 1, i - 1) \o <<x>> \o SubSeq(e, i, Len(e))
-ArrOps == {"push", "pop", "insert", "remove", "swap_remove", "truncate", "clear", "resize", "extend_from_within", "set", "take_elem", "append"}
+ArrOps == {"push", "pop", "insert", "remove", "swap_remove", "truncate", "clear", "resize", "extend_from_within", "set", "take_elem", "append", "drain", "into_iter", "retain_even"}
 ArrOp(op, e, x, i) ==
   CASE op = "push"   -> Res(Append(e, x), <<>>, <<>>, <<>>)
     [] op = "pop"    -> IF e = <<>> THEN Res(e, <<>>, <<x>>, <<>>) ELSE Res(Front(e), <<e[Len(e)]>>, <<x>>, <<>>)
@@ -127,11 +128,18 @@ ArrOp(op, e, x, i) ==
     [] op = "set"    -> IF i >= Len(e) THEN Reject(e) ELSE Res([e EXCEPT ![i + 1] = x], <<>>, <<e[i + 1]>>, <<>>)
     \* mem::take(&mut array[i]) : the element is handed out, Null stays behind (x must be the layer's Null)
     [] op = "take_elem" -> IF i >= Len(e) THEN Reject(e) ELSE Res([e EXCEPT ![i + 1] = x], <<e[i + 1]>>, <<>>, <<>>)
+    \* drain(..i): the first i elements are handed out in order (panics when i > len)
+    [] op = "drain" -> IF i > Len(e) THEN Reject(e) ELSE Res(SubSeq(e, i + 1, Len(e)), SubSeq(e, 1, i), <<x>>, <<>>)
+    \* mem::take(array).into_iter(): every element is handed out in order, an empty array stays behind;
+    \* the iterator's len / size_hint / as_slice report the elements not yet yielded
+    [] op = "into_iter" -> Res(<<>>, e, <<x>>, <<>>)
+    \* retain(|_| position is even): elements at odd 0-based positions are destroyed, order kept
+    [] op = "retain_even" -> Res(SelectSeqIdx(e, LAMBDA j : j % 2 = 1), <<>>, <<x>> \o SelectSeqIdx(e, LAMBDA j : j % 2 = 0), <<>>)
 
 \* object operations on a function m: key -> element
 FnWith(m, key, x) == [q \in DOMAIN m \cup {key} |-> IF q = key THEN x ELSE m[q]]
 FnWithout(m, key) == [q \in DOMAIN m \ {key} |-> m[q]]
-ObjOps == {"insert", "remove", "clear", "or_insert", "set", "append"}
+ObjOps == {"insert", "remove", "clear", "or_insert", "set", "append", "entry_key", "and_modify", "entry_remove", "retain_not"}
 ObjOp(op, m, key, x) ==
   CASE op = "insert" -> IF key \in DOMAIN m THEN Res(FnWith(m, key, x), <<m[key]>>, <<>>, <<>>)
                         ELSE Res(FnWith(m, key, x), <<>>, <<>>, <<>>)
@@ -145,6 +153,14 @@ ObjOp(op, m, key, x) ==
     [] op = "or_insert" -> IF key \in DOMAIN m THEN Res(m, <<>>, <<x>>, <<>>) ELSE Res(FnWith(m, key, x), <<>>, <<>>, <<>>)
     \* object[key] = x  (IndexMut: index-or-insert then assign)
     [] op = "set"    -> IF key \in DOMAIN m THEN Res(FnWith(m, key, x), <<>>, <<m[key]>>, <<>>) ELSE Res(FnWith(m, key, x), <<>>, <<>>, <<>>)
+    \* entry(key).key(): reads the key back (occupied or vacant), nothing changes
+    [] op = "entry_key" -> Res(m, <<>>, <<x>>, <<>>)
+    \* entry(key).and_modify(|v| *v = x): assigns when the member exists, otherwise nothing happens (x is destroyed)
+    [] op = "and_modify" -> IF key \in DOMAIN m THEN Res(FnWith(m, key, x), <<>>, <<m[key]>>, <<>>) ELSE Res(m, <<>>, <<x>>, <<>>)
+    \* match entry(key) { Occupied(e) => Some(e.remove()), Vacant(_) => None }
+    [] op = "entry_remove" -> IF key \in DOMAIN m THEN Res(FnWithout(m, key), <<m[key]>>, <<x>>, <<>>) ELSE Res(m, <<>>, <<x>>, <<>>)
+    \* retain(|k, _| k != key): the member is destroyed, nothing is handed out
+    [] op = "retain_not" -> IF key \in DOMAIN m THEN Res(FnWithout(m, key), <<>>, <<x, m[key]>>, <<>>) ELSE Res(m, <<>>, <<x>>, <<>>)
 
 \* ---- reference layer ------------------------------------------------------------------
 \* apply op at path p (sequence of keys / 0-based indices) of plain value v.
@@ -365,11 +381,12 @@ Mutate(s, p, kind, op, src, arg, o) ==
   /\ slot[s] # None /\ (src \in Slots => (src # s /\ slot[src] # None))
   /\ PlainAt(model[s], p) # PNone /\ PlainAt(model[s], p).t = kind
   /\ (op = "take_elem" => src = "null") /\ (op # "take_elem" => src # "null")
-  /\ (op \in {"pop", "remove", "swap_remove", "truncate", "clear", "extend_from_within", "take_elem"} => src \in {"lit", "null"})
+  /\ (op \in {"pop", "remove", "swap_remove", "truncate", "clear", "extend_from_within", "take_elem", "drain", "into_iter", "retain_even",
+              "entry_key", "entry_remove", "retain_not"} => src \in {"lit", "null"})
   /\ LET r == RepApply(Heap, slot[s], p, kind, op, ArgRep(src), arg)
          pm == PlainApply(model[s], p, kind, op, ArgPlain(src), arg)
          keepOut == r.out # <<>> /\ o # s /\ slot[o] = None
-         h2 == IF keepOut THEN r.h ELSE DropAll(r.h, r.out)
+         h2 == IF keepOut THEN DropAll(r.h, Tail(r.out)) ELSE DropAll(r.h, r.out)
      IN /\ Put(h2)
         /\ slot' = [q \in Slots |-> IF q = s THEN r.v
                                     ELSE IF q = src THEN None
@@ -378,7 +395,7 @@ Mutate(s, p, kind, op, src, arg, o) ==
                                      ELSE IF q = src THEN PNone
                                      ELSE IF q = o /\ keepOut /\ pm.out # <<>> THEN pm.out[1] ELSE model[q]]
         /\ Step([op |-> "mut", s |-> s, p |-> p, kind |-> kind, f |-> op, src |-> src, arg |-> arg, o |-> o,
-                 ok |-> pm.ok, out |-> IF pm.out = <<>> THEN PNone ELSE pm.out[1]])
+                 ok |-> pm.ok, out |-> IF pm.out = <<>> THEN PNone ELSE pm.out[1], outs |-> pm.out])
 
 \* target.append(&mut other): all members of the container in slot src move into the container at path p of slot s;
 \* src stays an (empty) container.  Both sides are promoted (as_mut) first.
@@ -411,10 +428,13 @@ Next ==
   \/ \E s, t \in Slots : s # t /\ Take(s, t)
   \/ \E s \in Slots : \E p \in (IF slot[s] = None THEN {} ELSE ContainerPaths(s)) :
        \/ \E op \in Consuming, src \in {"lit"} \cup (Slots \ {s}), i \in {0, 2} : Mutate(s, p, "arr", op, src, i, OutSlot(s, src))
-       \/ \E op \in ArrOps \ (Consuming \cup {"take_elem", "append"}), i \in {0, 1} : Mutate(s, p, "arr", op, "lit", i, OutSlot(s, "lit"))
+       \/ \E op \in ArrOps \ (Consuming \cup {"take_elem", "append", "into_iter", "retain_even"}), i \in {0, 1} : Mutate(s, p, "arr", op, "lit", i, OutSlot(s, "lit"))
+       \/ \E op \in {"into_iter", "retain_even"} : Mutate(s, p, "arr", op, "lit", 0, OutSlot(s, "lit"))
+       \/ Mutate(s, p, "arr", "drain", "lit", 2, OutSlot(s, "lit"))
        \/ \E i \in {0, 1} : Mutate(s, p, "arr", "take_elem", "null", i, OutSlot(s, "null"))
        \/ \E op \in {"insert", "or_insert", "set"}, src \in {"lit"} \cup (Slots \ {s}), key \in {"a", "z"} : Mutate(s, p, "obj", op, src, key, OutSlot(s, src))
-       \/ \E op \in {"remove", "clear"}, key \in {"a", "z"} : Mutate(s, p, "obj", op, "lit", key, OutSlot(s, "lit"))
+       \/ \E key \in {"a", "z"} : Mutate(s, p, "obj", "and_modify", "lit", key, OutSlot(s, "lit"))
+       \/ \E op \in {"remove", "clear", "entry_key", "entry_remove", "retain_not"}, key \in {"a", "z"} : Mutate(s, p, "obj", op, "lit", key, OutSlot(s, "lit"))
 Spec == Init /\ [][Next]_vars
 
 \* ---- invariants -------------------------------------------------------------------------
